@@ -254,6 +254,16 @@ def classify(kind, detail, src, opts):
             ifm = sg["tensors"][op["inputs"][0]]["shape"]
             if len(ifm) == 4 and f.get(1, 0) == f.get(3, 0) == ifm[2] and f.get(2, 0) == f.get(4, 0) == ifm[1]:
                 return "options@fixup_pool_strides-before-placement"
+    if kind == "interface-output-name":
+        mm = re.search(r"position \d+: ([0-9a-f]*) vs ([0-9a-f]*)", detail)
+        if mm:
+            a, b = (bytes.fromhex(x).decode("utf-8", "replace") for x in mm.group(1, 2))
+            for op in sg["operators"]:
+                if src["operator_codes"][op["opcode_index"]]["builtin"] in (23, 97, 49) and len(op["outputs"]) == 1:
+                    r = sg["tensors"][op["outputs"][0]]
+                    ins = [sg["tensors"][i] for i in op["inputs"] if i >= 0 and not src["buffers"][sg["tensors"][i]["buffer"]]]
+                    if r["name"] == a and len(ins) == 1 and ins[0]["name"] == b and ins[0]["shape"] == r["shape"]:
+                        return "interface-output-name@identity-operator-bypassed-at-subgraph-output"
     if kind in ("interface-output-shape", "operand-shape", "result-shape"):
         mm = re.search(r"([0-9a-f]*): \[([-0-9, ]*)\] vs \[([-0-9, ]*)\]", detail)
         if mm:
@@ -267,11 +277,38 @@ def classify(kind, detail, src, opts):
     return None
 
 
+def replay(ck, path):
+    """./check C11 --replay replays/C11-<seed>-<n>.json : recompile the recorded network and show the Lean verdict"""
+    import json
+
+    import preserve_dump
+
+    r = json.load(open(path))["replay"]
+    if not r.get("src_model_b64"):
+        raise common.InfraError("replay file carries no source model")
+    data = base64.b64decode(r["src_model_b64"])
+    res = pipeline.compile_net(data, r["opts"], introspect=False)
+    print("compile:", res.status, res.exc or "")
+    if res.status != "ok" or res.out_model is None:
+        ck.finish({"evaluations": 1, "distinct_nontrivial": 0, "rule": "replay"})
+    line, _s, _o = preserve_dump.preserve_line(data, res.out_model)
+    ans = ck.model([line], parallel=False)[0]
+    print("verdict:", ans)
+    if ans.startswith("bad"):
+        src = fbwalk.parse(data)
+        probs = [p.split("|", 1) for p in ans.split(" ", 8)[8].split(" ~ ")]
+        for kind, detail in probs:
+            ck.violation(f"{kind}: {detail[:200]}", dict(r, verdict=ans), key=classify(kind, detail, src, r["opts"]))
+    ck.finish({"evaluations": 1, "distinct_nontrivial": 1, "rule": "replay"})
+
+
 def main():
     ck = Check("C11", "other")
     lean = ck.lean_stage(["VelaVerif.Props.C11"])
     common.setup_repo_path()
     pipeline.load_vela()
+    if ck.replay_arg:
+        replay(ck, ck.replay_arg)
 
     # ---- function-level correspondences --------------------------------------------------------
     n_align, bad_align = align_correspondence(ck, 4000 if ck.thorough else 800)
@@ -314,14 +351,16 @@ def main():
     nontrivial = set()
     for o, ans, line in zip(owners, answers, lines):
         programs += 1
-        m = re.match(r"(ok|bad|pre) preserved=(\d+) absorbed=(\d+) folded=(\d+) dead=(\d+) ethosu=(\d+) n=(\d+) ?(.*)", ans)
+        m = re.match(r"(ok|bad|pre) preserved=(\d+) absorbed=(\d+) folded=(\d+) bypassed=(\d+) dead=(\d+) ethosu=(\d+) n=(\d+) ?(.*)", ans)
         if not m:
             raise common.InfraError("unexpected preserve answer: " + ans[:300] + " for " + line[:300])
-        status, pres, absd, fold, dead, eth = m.group(1), *map(int, m.group(2, 3, 4, 5, 6))
+        status, pres, absd, fold, byp, dead, eth = m.group(1), *map(int, m.group(2, 3, 4, 5, 6, 7))
+        problems_text = m.group(9)
         ck.count("verdict_" + status)
         ck.count("ops_preserved", pres)
         ck.count("ops_absorbed", absd)
         ck.count("ops_folded", fold)
+        ck.count("ops_bypassed", byp)
         ck.count("ops_dead", dead)
         ck.count("ethosu_ops", eth)
         if pres and eth:
@@ -331,14 +370,14 @@ def main():
         elif eth:
             ck.count("models_npu_only")
         if status == "pre":
-            for p in m.group(8).split(" ~ "):
+            for p in problems_text.split(" ~ "):
                 ck.count("source_outside_domain_" + p.split("|")[0])
             continue
         if pres >= 1:
             nontrivial.add((o["profile"], o["idx"], tuple(o["opts"])))
         if status == "bad":
             rejected += 1
-            probs = [p.split("|", 1) for p in m.group(8).split(" ~ ")]
+            probs = [p.split("|", 1) for p in problems_text.split(" ~ ")]
             for kind, detail in probs:
                 ck.count("problem_" + kind)
             src = fbwalk.parse(o["src_model"])
